@@ -126,12 +126,79 @@ func verifLemmaMaxBodyTight(c *channelInstance, m *Message, chunkSize int, chunk
 // C11: outgoing sequence numbers
 // ---------------------------------------------------------------------------
 
+//@ guarded_by channelInstance.Mutex: sequenceNumber props C11
+
 //@ func (*channelInstance).nextSequenceNumber
 //@   props C11
 //@   requires c != nil
+//@   requires [locked] held(&c.Mutex)
 //@   requires [seqInv] c.sequenceNumber <= 4294966272
 //@   assigns c.sequenceNumber
 //@   ensures [C11:next] (old(c.sequenceNumber) < 4294966272 ==> result == old(c.sequenceNumber) + 1) &&
 //@                      (old(c.sequenceNumber) == 4294966272 ==> result == 1)
 //@   ensures [C11:stored] c.sequenceNumber == result && result <= 4294966272 && result != 0
 //@   canary ensures [C11:canary-nowrap] result == old(c.sequenceNumber) + 1
+
+// ---------------------------------------------------------------------------
+// C12: reassembly of chunk streams
+// ---------------------------------------------------------------------------
+
+// sumData(c, n) = len(c[0].Data) + ... + len(c[n-1].Data): the length of the concatenation of the
+// first n chunk bodies (definitional axioms; the heap they read is the function's entry heap).
+//@ ufunc sumData([]*MessageChunk, int) int
+//@ axiom sumData0: forall c []*MessageChunk :: { sumData(c, 0) } sumData(c, 0) == 0
+//@ axiom sumDataS: forall c []*MessageChunk, n int :: { sumData(c, n+1) }
+//@     0 <= n && n < len(c) ==> sumData(c, n+1) == sumData(c, n) + len(c[n].Data)
+
+//@ pred chunksOK(chunks []*MessageChunk) := forall i int :: { chunks[i] } 0 <= i && i < len(chunks) ==>
+//@     chunks[i] != nil && chunks[i].MessageHeader != nil && chunks[i].MessageHeader.SequenceHeader != nil
+
+// a conforming peer numbers consecutive chunks differently (n, n+1, ... with the wrap to a small
+// value, which may be 0)
+//@ pred conforming(chunks []*MessageChunk) := forall i int :: { chunks[i] } 0 <= i && i+1 < len(chunks) ==>
+//@     chunks[i+1].MessageHeader.SequenceHeader.SequenceNumber != chunks[i].MessageHeader.SequenceHeader.SequenceNumber
+
+//@ func mergeChunks
+//@   props C12 C20
+//@   uses sumData0, sumDataS
+//@   requires chunksOK(chunks) && conforming(chunks)
+//@   assigns nothing
+//@   ensures [C12:concat-len] len(chunks) >= 2 ==> err == nil && len(result0) == sumData(chunks, len(chunks))
+//@   ensures [C12:single] len(chunks) == 1 ==> err == nil && sameslice(result0, chunks[0].Data)
+//@   ensures [C12:empty] len(chunks) == 0 ==> err == nil && len(result0) == 0
+//@   ensures [C20:fresh] len(chunks) >= 2 ==> arr(result0) == 0 || fresh(result0)
+//@   loop 0 invariant -1 <= rangeindex && rangeindex < len(chunks) && len(chunks) >= 2
+//@   loop 0 invariant [sum] len(b) == sumData(chunks, rangeindex+1)
+//@   loop 0 invariant rangeindex >= 0 ==> seqnr == chunks[rangeindex].MessageHeader.SequenceHeader.SequenceNumber
+//@   loop 0 invariant rangeindex == -1 ==> seqnr == 0
+//@   loop 0 invariant arr(b) == 0 || fresh(b)
+//@   loop 0 decreases len(chunks) - rangeindex
+
+// ---------------------------------------------------------------------------
+// C18: request ids and the handler table
+// ---------------------------------------------------------------------------
+
+//@ guarded_by SecureChannel.requestIDMu: requestID props C18
+//@ guarded_by SecureChannel.handlersMu: handlers props C18
+
+//@ func (*SecureChannel).nextRequestID
+//@   props C18
+//@   requires s != nil
+//@   assigns s.requestID, held(&s.requestIDMu)
+//@   ensures [C18:nonzero] result != 0
+//@   ensures [C18:next] (old(s.requestID) != 4294967295 ==> result == old(s.requestID) + 1) &&
+//@                      (old(s.requestID) == 4294967295 ==> result == 1)
+//@   ensures [C18:stored] s.requestID == result
+//@   ensures [C18:unlocked] !held(&s.requestIDMu)
+//@   canary ensures [C18:canary-plain-increment] result == old(s.requestID) + 1
+
+//@ func (*SecureChannel).popHandler
+//@   props C18
+//@   requires s != nil
+//@   assigns map(s.handlers), held(&s.handlersMu)
+//@   ensures [C18:pop-found] result1 == old(in(reqID, s.handlers))
+//@   ensures [C18:pop-value] result1 ==> result0 == old(s.handlers[reqID])
+//@   ensures [C18:pop-removed] !in(reqID, s.handlers)
+//@   ensures [C18:pop-frame] forall k uint32 :: k != reqID ==>
+//@           (in(k, s.handlers) == old(in(k, s.handlers)) && s.handlers[k] == old(s.handlers[k]))
+//@   ensures [C18:unlocked] !held(&s.handlersMu)
